@@ -27,6 +27,8 @@ use write_fonts::tables::variations::{
 mod coords;
 #[path = "c11/float.rs"]
 mod float;
+#[path = "c11/metrics2.rs"]
+mod metrics2;
 
 type Axis = (i16, i16, i16);
 type Region = Vec<Axis>;
@@ -527,6 +529,7 @@ fn check_built(cfg: &Config, s: &mut Session, rng: &mut Rng, sc: &Scenario) {
         }
     };
     s.oracle("built-store-reads-back", true, || desc.clone(), String::new);
+    metrics2::store_bytes_case(s, &built.bytes, &store, &desc);
     s.count(&format!("subtables:{}", store.subs.len().min(9)));
     for sub in store.subs.iter().flatten() {
         s.count(if sub.wdc & 0x8000 != 0 { "sub:long-words" } else if sub.wdc > 0 { "sub:words" } else if sub.region_indexes.is_empty() { "sub:no-regions" } else { "sub:bytes-only" });
@@ -1660,4 +1663,10 @@ fn run(cfg: &Config, s: &mut Session) {
     float::run_ops(cfg, s, &mut rng2);
     float::run_scalar_f32(cfg, s, &mut rng2);
     float::run_float_delta(cfg, s, &mut rng2);
+    metrics2::run_scaled(cfg, s, &mut rng2);
+    metrics2::run_gvar_metrics(cfg, s, &mut rng2);
+    metrics2::run_var_tables(cfg, s, &mut rng2);
+    metrics2::run_vertical(cfg, s, &mut rng2);
+    metrics2::run_direct_limit(cfg, s, &mut rng2);
+    metrics2::run_store_bytes_handmade(cfg, s, &mut rng2);
 }
